@@ -25,7 +25,10 @@ def run(rep):
     import c04_narrow
     rep.guard(c04_narrow.b4, rep, w)     # ... also on the compiler's side: the operand byte is not a truncated count
     import c05
-    rep.guard(c05.e8, rep, w, 'C12')     # key equality is the language's `==`: equal keys must hash alike, so no special case may be added on one side only
+    rep.guard(c05.e8, rep, w, 'C12')
+    rep.guard(c05.e9, rep, w, 'C12')     # ... and it is a pure function of the two keys (a visited flag on one operand makes `a == b` differ from `b == a`)
+    import cache
+    rep.guard(cache.cc1, rep, w, 'C12')  # a remembered key list / look-up must not outlive a change of the map     # key equality is the language's `==`: equal keys must hash alike, so no special case may be added on one side only
 
 
 def discr_switches(f, adt_path):
